@@ -242,7 +242,56 @@ def enc_setup(E):
     return {"nibbles": fresh_nibs(E, "nibbles")}
 
 
+def _hex_view(E, ctx):
+    return bool(E.ghost.get("hex_model")) and not hasattr(ctx, "outcome")
+
+
+def enc_cases_hex(E, ctx):
+    """hex-prefix encoding as an opaque bijection (trie-level view): HPK(path, is_leaf) with hp_path / hp_flag as
+    inverse; justified by lemma hp_roundtrip"""
+    from contracts import hexmodel as HM
+    t = ops.seq_term_as(ctx.nibbles, "int")
+    # definition of allnib at the last element
+    E.assume(mk_bool(z3.Implies(z3.And(allnib(t), z3.Length(t) > 0),
+                                z3.And(t[z3.Length(t) - 1] >= 0, t[z3.Length(t) - 1] <= 15))))
+    if isinstance(ctx.nibbles, SSeq) and E.implied(mk_bool(terminated(t))):
+        x, term = E.get_slice(ctx.nibbles, None, -1).t, z3.BoolVal(True)
+    elif E.implied(mk_bool(z3.Not(terminated(t)))):
+        x, term = t, z3.BoolVal(False)
+    else:
+        x, term = strip(t), terminated(t)
+    side = []
+    ok = allnib_of(x, side, B2N)
+    for f in side:
+        E.assume(mk_bool(f))
+
+    def ret():
+        r = z3.simplify(HM.HPK(x, term))
+        E.assume(mk_bool(z3.And(HM.hp_path(r) == x, HM.hp_flag(r) == term, z3.Length(r) >= 1)))
+        return SSeq(r, "bytes", "int")
+    return [Case("invalid-nibble", when=mk_bool(z3.Not(ok)), raises=inv_nibbles(E)),
+            Case("hex-prefix", when=mk_bool(ok), returns=ret)]
+
+
+def dec_cases_hex(E, ctx):
+    from contracts import hexmodel as HM
+    v = ops.seq_term_as(ctx.value, "int")
+    p, f = HM.hpk_parts(v)
+
+    def ret():
+        E.assume(mk_bool(allnib(p)))
+        if z3.is_true(f):
+            return SSeq(z3.simplify(z3.Concat(p, z3.Unit(z3.IntVal(16)))), "tuple", "int", rng=(0, 16))
+        if z3.is_false(f):
+            return SSeq(p, "tuple", "int", rng=(0, 15))
+        return SSeq(z3.If(f, z3.Concat(p, z3.Unit(z3.IntVal(16))), p), "tuple", "int", rng=(0, 16))
+    return [Case("empty", when=mk_bool(z3.Length(v) == 0), raises=IndexError),
+            Case("decoded", when=mk_bool(z3.Length(v) > 0), returns=ret)]
+
+
 def enc_cases(E, ctx):
+    if _hex_view(E, ctx):
+        return enc_cases_hex(E, ctx)
     t = ops.seq_term_as(ctx.nibbles, "int")
     x = strip(t)
     if isinstance(ctx.nibbles, SSeq) and E.implied(mk_bool(terminated(t))):
@@ -269,6 +318,8 @@ def dec_setup(E):
 
 
 def dec_cases(E, ctx):
+    if _hex_view(E, ctx):
+        return dec_cases_hex(E, ctx)
     v = ops.seq_term_as(ctx.value, "int")
 
     def ret():
